@@ -242,7 +242,7 @@ def rand_pitch(rng, lo=2, hi=6):
     return [rng.choice(STEPS), rng.choice([0, 0, 0, 0, 0, 1, 1, -1, -1, 2, -2]), rng.randint(lo, hi)]
 
 
-def gen_asc(rng, exotic=False, max_measures=4, chord_ties=False):
+def gen_asc(rng, exotic=False, max_measures=4, chord_ties=False, partial_ties=False):
     meters = [(4, 4), (3, 4), (2, 4), (6, 8), (2, 2), (3, 8), (5, 4), (9, 8), (12, 8), (4, 2), (3, 2), (5, 8), (7, 8)]
     meter = list(rng.choice(meters))
     nm = rng.randint(1, max_measures)
@@ -302,6 +302,10 @@ def gen_asc(rng, exotic=False, max_measures=4, chord_ties=False):
                             continue
                         b["p"] = [list(p) for p in a["p"]]
                         a["tie"] = True
+                        if partial_ties and len(a["p"]) >= 2 and rng.random() < 0.5:
+                            # only some notes of the chord are tied; the others are struck again
+                            k = rng.randint(1, len(a["p"]) - 1)
+                            a["tiep"] = sorted(rng.sample(range(len(a["p"])), k))
             # a voice must not fall silent between tied notes (None measure in between)
             idx = 0
             for mi, mm in enumerate(voice):
@@ -456,13 +460,13 @@ def expected_voice(asc, si, vi, fill_silent):
             if fill_silent:
                 for (v, d) in rest_fill(lens[m]):
                     e = {"t": "r", "v": v, "d": d, "tup": None}
-                    out.append((pos, ev_value(e), "r", [], False))
+                    out.append((pos, ev_value(e), "r", [], set()))
                     pos += ev_value(e)
         else:
             for e in mm:
                 val = ev_value(e)
                 kind = "r" if (e["t"] == "s" and fill_silent) else e["t"]
-                out.append((pos, val, kind, e.get("p", []), bool(e.get("tie"))))
+                out.append((pos, val, kind, e.get("p", []), tied_keys(e) if kind == "n" else set()))
                 pos += val
         t0 += lens[m]
     return out
@@ -484,10 +488,22 @@ def expected_joined(evs):
             else:
                 res.append((on, du, p[0], p[1], p[2]))
                 i = len(res) - 1
-            if tie:
+            if (tie is True) or (not isinstance(tie, bool) and key in tie):
                 new_open[key] = i
         open_ = new_open
     return res
+
+
+def tied_keys(e):
+    """pitch keys of an event that are tied to the next event: all of them ("tie"), or only those listed
+    by index in "tiep" (a chord in which only some notes are tied)"""
+    if e.get("t") != "n":
+        return set()
+    if not e.get("tie"):
+        return set()
+    if e.get("tiep") is not None:
+        return set(tuple(e["p"][i]) for i in e["tiep"] if i < len(e["p"]))
+    return set(tuple(p) for p in e["p"])
 
 
 # ============================================================================ kern writer
@@ -531,12 +547,13 @@ def kern_token(rng, e, tie_in, deco):
             s = (kern_recip(e) if deco.get("grace_dur") else "") + kern_pitch(p) + "q"
         else:
             s = kern_recip(e) + kern_pitch(p, natural=deco.get("nat", False))
-            to = bool(e.get("tie"))
-            if tie_in and to:
+            to = tuple(p) in tied_keys(e)
+            tin = (tuple(p) in tie_in) if isinstance(tie_in, (set, frozenset)) else bool(tie_in)
+            if tin and to:
                 s = s + "_"
             elif to:
                 s = "[" + s
-            elif tie_in:
+            elif tin:
                 s = s + "]"
         if i == 0 and deco.get("extra"):
             s = s + deco["extra"]
@@ -588,9 +605,9 @@ def write_kern(asc, lay, rng):
                     deco["grace_dur"] = rng.random() < 0.5
                     if rng.random() < 0.25 and e["t"] == "n":
                         deco["extra"] = rng.choice(["L", "J", ";", "'", "~", "/", "\\", "K", "k", "^"])
-                items.append((pos, kern_token(rng, e, tie_in and e["t"] == "n", deco), e["t"] == "g"))
+                items.append((pos, kern_token(rng, e, tie_in if e["t"] == "n" else set(), deco), e["t"] == "g"))
                 if e["t"] != "g":
-                    tie_in = bool(e.get("tie")) and e["t"] == "n"
+                    tie_in = tied_keys(e)
                 pos += ev_value(e)
             res.append(items)
         return res
@@ -838,9 +855,9 @@ def write_kern3(asc, lay, rng):
         evs = mm if mm is not None else [{"t": "r", "v": v, "d": d, "tup": None} for (v, d) in rest_fill(lens[m])]
         items, pos = [], F(0)
         for e in evs:
-            items.append((pos, kern_token(rng, e, tie_in and e["t"] == "n", {}), e["t"] == "g"))
+            items.append((pos, kern_token(rng, e, tie_in if e["t"] == "n" else set(), {}), e["t"] == "g"))
             if e["t"] != "g":
-                tie_in = bool(e.get("tie")) and e["t"] == "n"
+                tie_in = tied_keys(e)
             pos += ev_value(e)
         return items, tie_in
 
@@ -2288,7 +2305,8 @@ def cases(rng, tier):
     for i in range(n):
         seed = rng.getrandbits(48)
         r = random.Random(seed)
-        asc = gen_asc(r, exotic=r.random() < 0.2, chord_ties=chord_ties and r.random() < 0.3)
+        ct = chord_ties and r.random() < 0.3
+        asc = gen_asc(r, exotic=r.random() < 0.2, chord_ties=ct, partial_ties=ct)
         lay = rand_layout(r)
         if lay["split"] and r.random() < 0.6:
             asc = delay_subvoices(asc, r)
